@@ -237,6 +237,9 @@ def e2eParams : Params := ⟨e2eClock, ⟨true, initMaxTtl 0⟩, fun k => k⟩
 
 def aRecord (ttl : Nat) : Msg := ⟨0, false, [⟨1, UInt32.ofNat ttl⟩], [], []⟩
 
+/-- the cache after the priming query (miss path): one entry, TTL 4, stored at time 0 -/
+def e2eMem0 : Mem := cacheStore e2eParams.clock e2eParams.cfg Mem.empty 0 (some (aRecord 4)) 0 0 1
+
 /-- run client thread i to its end (its own steps only) -/
 def clientLabels (i now : Nat) : List Label := [.client i now, .client i now, .client i now, .client i now]
 
@@ -244,46 +247,67 @@ def waveLabels (first n now : Nat) : List Label := (List.range n).flatMap (fun i
 
 def ttlOfHit (h : Hit) : Nat := match h.served.ans with | [rr] => rr.ttl.toNat | _ => 0
 
+/-- the TTL a client thread that has responded carried -/
+def respondedTtl (c : Client) : Option Nat :=
+  match c.pc with
+  | .responded h => some (ttlOfHit h)
+  | _ => none
+
+/-- the common value of a list, 0 if there is none -/
+def commonTtl : List Nat → Nat
+  | [] => 0
+  | t :: rest => if rest.all (· == t) then t else 0
+
 def waveResult (s : State) (first n : Nat) : Nat × Nat :=
-  let cs := (s.clients.drop first).take n
-  let hits := cs.filterMap (fun c => match c.pc with | .responded h => some (ttlOfHit h) | _ => none)
-  let ttl := match hits with | [] => 0 | t :: rest => if rest.all (· == t) then t else 0
-  (hits.length, ttl)
+  let hits := ((s.clients.drop first).take n).filterMap respondedTtl
+  (hits.length, commonTtl hits)
 
 def probeResult (s : State) (i : Nat) : Option (Bool × Nat) :=
   match s.clients[i]? with
   | some c => (match c.pc with | .responded h => some (true, ttlOfHit h) | .missed => some (false, 0) | _ => none)
   | none => none
 
-/-- mode 0: the refresh succeeds (TTL 4 again); mode 1: the upstream fails; mode 2: the upstream answers NXDOMAIN.
+def e2eT1 : Nat := 3300
+
+/-- the state after wave 1: `n` hits at 3.3 s (the entry's last quarter begins at 3.0 s) -/
+def e2eAfterWave1 (n : Nat) : State :=
+  run e2eParams (init e2eMem0 (List.replicate (2 * n + 2) 0) 2) (waveLabels 0 n (e2eT1 * msNs))
+
+/-- mode 0 (the refresh succeeds, TTL 4 again): a second wave while the refresh is in flight, the refresh
+    returns, stores and releases, one more query. Upstream delay `d` ms. -/
+def e2eFinalOk (n d : Nat) : State :=
+  let P := e2eParams
+  let s2 := run P (e2eAfterWave1 n) (waveLabels n n ((e2eT1 + d / 2) * msNs))
+  let s3 := run P s2 [.forward 0 (.reply (aRecord 4)), .store 0 ((e2eT1 + d) * msNs) 0, .done 0]
+  run P s3 (clientLabels (2 * n) ((e2eT1 + d + 150) * msNs))
+
+/-- what the upstream gives to a refresh in modes 1 (the exchange fails) and 2 (NXDOMAIN) -/
+def e2eOutcome (mode : Nat) : Upstream := if mode = 1 then .err else .reply ⟨3, false, [], [], []⟩
+
+/-- modes 1 and 2: the refresh ends badly, a query 100 ms later (it starts the next refresh, which ends the same
+    way), and in mode 1 a last query after the entry has expired -/
+def e2eFinalBad (mode n d : Nat) : State :=
+  let P := e2eParams
+  let out := e2eOutcome mode
+  let s2 := run P (e2eAfterWave1 n) [.forward 0 out, .store 0 ((e2eT1 + d) * msNs) 0, .done 0]
+  let s3 := run P s2 (clientLabels (2 * n) ((e2eT1 + d + 100) * msNs))
+  let s4 := run P s3 [.forward 1 out, .store 1 ((e2eT1 + 2 * d + 100) * msNs) 0, .done 1]
+  if mode = 1 then run P s4 (clientLabels (2 * n + 1) (4600 * msNs)) else s4
+
+/-- mode 0: the refresh succeeds; mode 1: the upstream fails; mode 2: the upstream answers NXDOMAIN.
     `n` hits per wave, upstream delay `d` ms. The schedule is the harness' one (see c19_prefetch.go). -/
 def modelE2E (mode n d : Nat) : E2EOut :=
-  let P := e2eParams
-  let ms := fun (t : Nat) => t * msNs
-  let mem0 := cacheStore P.clock P.cfg Mem.empty 0 (some (aRecord 4)) 0 0 1       -- priming query (miss path)
-  let t1 := 3300
-  let nClients := 2 * n + 2
-  let s0 := init mem0 (List.replicate nClients 0) 2
-  let s1 := run P s0 (waveLabels 0 n (ms t1))
   if mode = 0 then
-    let s2 := run P s1 (waveLabels n n (ms (t1 + d / 2)))
-    let s3 := run P s2 [.forward 0 (.reply (aRecord 4)), .store 0 (ms (t1 + d)) 0, .done 0]
-    let s4 := run P s3 (clientLabels (2 * n) (ms (t1 + d + 150)))
-    let (c1, l1) := waveResult s4 0 n
-    let (c2, l2) := waveResult s4 n n
-    ⟨c1, l1, c2, l2, true, 1 + s4.refreshers.length, if s4.refreshers.length > 0 then 1 else 0,
-      probeResult s4 (2 * n), none⟩
+    let s := e2eFinalOk n d
+    ⟨(waveResult s 0 n).1, (waveResult s 0 n).2, (waveResult s n n).1, (waveResult s n n).2, true,
+      1 + s.refreshers.length, if s.refreshers.length > 0 then 1 else 0, probeResult s (2 * n), none⟩
   else
-    let out : Upstream := if mode = 1 then .err else .reply ⟨3, false, [], [], []⟩
-    let s2 := run P s1 [.forward 0 out, .store 0 (ms (t1 + d)) 0, .done 0]
-    let s3 := run P s2 (clientLabels (2 * n) (ms (t1 + d + 100)))
-    let s4 := run P s3 [.forward 1 out, .store 1 (ms (t1 + 2 * d + 100)) 0, .done 1]
-    let s5 := if mode = 1 then run P s4 (clientLabels (2 * n + 1) (ms 4600)) else s4
-    let (c1, l1) := waveResult s5 0 n
+    let s := e2eFinalBad mode n d
     -- in mode 1 the last query misses and goes to the (failing) upstream itself: one more exchange
     let extra := if mode = 1 then 1 else 0
-    ⟨c1, l1, 0, 0, true, 1 + s5.refreshers.length + extra, if s5.refreshers.length > 0 then 1 else 0,
-      probeResult s5 (2 * n), if mode = 1 then probeResult s5 (2 * n + 1) else none⟩
+    ⟨(waveResult s 0 n).1, (waveResult s 0 n).2, 0, 0, true, 1 + s.refreshers.length + extra,
+      if s.refreshers.length > 0 then 1 else 0,
+      probeResult s (2 * n), if mode = 1 then probeResult s (2 * n + 1) else none⟩
 
 /-- the property on the observables of a scenario -/
 def specE2E (mode n : Nat) (o : E2EOut) : Bool :=
@@ -295,8 +319,8 @@ def specE2E (mode n : Nat) (o : E2EOut) : Bool :=
      -- one refresh for both waves; afterwards hits see renewed TTLs
      o.upstream == 2 && (match o.probe with | some (true, ttl) => decide (ttl > o.w1ttl) | _ => false)
    else
-     -- a failed refresh leaves the old entry usable until it expires
-     (match o.probe with | some (true, ttl) => decide (ttl ≤ o.w1ttl) | _ => false))
+     -- a failed refresh leaves the old entry usable until it expires: the same answer, still ageing
+     (match o.probe with | some (true, ttl) => decide (1 ≤ ttl ∧ ttl ≤ o.w1ttl) | _ => false))
 
 /-! ### line protocol -/
 
